@@ -4,6 +4,7 @@ import SuxModel.BitFieldVec.Runner
 import SuxModel.RankSel.Runner
 import SuxModel.Lender.Runner
 import SuxModel.SigStore.Runner
+import SuxModel.RCL.Runner
 /-!
 # `suxdrv <runner>` : line-protocol driver over the executable model definitions
 -/
@@ -24,7 +25,8 @@ def runners : List (String × Runner) := [
   ("bfv", Sux.BFV.runner),
   ("ranksel", Sux.RS.runner),
   ("lender", Sux.Lender.runner),
-  ("sigstore", Sux.SigStore.runner)
+  ("sigstore", Sux.SigStore.runner),
+  ("rcl", Sux.RCL.runner)
 ]
 
 def main (args : List String) : IO UInt32 := do
